@@ -210,9 +210,25 @@ def run_driver(pid, main):
     except MachineryError as ex:
         print('MACHINERY-FAILURE property=%s: %s' % (pid, ex))
         rc = 2
-    except Exception:
+    except Exception as ex:
         traceback.print_exc()
-        print('MACHINERY-FAILURE property=%s: unexpected exception in driver' % pid)
-        rc = 2
+        tb = traceback.extract_tb(ex.__traceback__)
+        where = tb[-1].filename if tb else ''
+        if os.path.realpath(where).startswith(os.path.realpath(REPO) + os.sep):
+            # the LIBRARY raised on an input of this check on which it does not raise on the tree the check was built
+            # against (a step of the harness that is not individually guarded): a behaviour change of the library, not a
+            # failure of the machinery.  Reported as a violation of the property being checked.
+            try:
+                chk.violation('%s/library-raised-in-unguarded-step/%s' % (pid, type(ex).__name__),
+                              {'where': '%s:%s in %s' % (os.path.relpath(where, REPO), tb[-1].lineno, tb[-1].name)},
+                              'no exception', str(ex)[:200])
+                rc = chk.finish()
+            except Exception:
+                traceback.print_exc()
+                print('MACHINERY-FAILURE property=%s: unexpected exception in driver' % pid)
+                rc = 2
+        else:
+            print('MACHINERY-FAILURE property=%s: unexpected exception in driver' % pid)
+            rc = 2
     sys.stdout.flush()
     sys.exit(rc)
